@@ -86,6 +86,16 @@ func (r *BatchCutter) Cut(force bool) (Result, error) {
 	}
 
 	maxOperationsPerBatch := currentProtocol.Protocol().MaxOperationCount
+
+	// a batch is written - and later read - under the protocol version its operations have been queued under: it is
+	// that version's maximum that the batch must not exceed (the file size limits of that version are made for it),
+	// not the maximum of the version that is current by the time the batch is cut
+	if head, e := r.pendingBatch.Peek(1); e == nil && len(head) > 0 {
+		if queuedUnder, e := r.client.Get(head[0].ProtocolVersion); e == nil {
+			maxOperationsPerBatch = queuedUnder.Protocol().MaxOperationCount
+		}
+	}
+
 	if !force && pending < maxOperationsPerBatch {
 		return Result{Pending: pending}, nil
 	}
